@@ -12,7 +12,7 @@ LEVEL = "fault_enumeration"
 RULE = (
     "for every base blob (quick: SHA512/nonce and SHA256/P-256 in both layouts + one 300-byte plaintext; thorough: 4 hashes x {nonce,DH,P256,P384} x 2 layouts + the long one), exhaustively: "
     "every single-bit flip, every truncation length, deletion of each byte, insertion of 00/FF at each offset, every TLV-header byte and key-identifier header byte replaced by each of "
-    "{00,01,7F,80,81,FF}, a blob whose ciphertext is exactly 64 KiB (every bit of its headers and of the first/last bytes of the ciphertext, two bits of every 1021st byte, truncations around 4 KiB/64 KiB) through the sync and the async API, and all pairs of flips among {bit 0 of every byte whose flip was harmless} u {first bit of every field}. Each mutated blob is decrypted by the real unprotect API with an offline "
+    "{00,01,7F,80,81,FF}, blobs whose ciphertext is exactly 64 KiB, 1 MiB (thorough: also 2 MiB, 3 MiB, 16 MiB; sparse flips and truncations) (64 KiB: every bit of its headers and of the first/last bytes of the ciphertext, two bits of every 1021st byte, truncations around 4 KiB/64 KiB) through the sync and the async API, and all pairs of flips among {bit 0 of every byte whose flip was harmless} u {first bit of every field}. Forgeries that need no secret: key position overwritten with one of 11 positions x 2 L0, wrapped CEK re-wrapped under a KEK derived from one of 7 publicly known byte strings (empty, zeros, the root key id, the key nonce, ...) used as L2 key / L1 key / L0 seed / root key, content re-encrypted (IV kept). Each mutated blob is decrypted by the real unprotect API with an offline "
     "cache holding the right root key (network seams raise). Blobs rejected by the authentication checks are decrypted a second time in the same process (a retry must not succeed). Oracle: original plaintext | any exception | needs-network; different bytes is the violation. Distinct by (blob, mutation); non-trivial = the "
     "mutated bytes differ from the original."
 )
@@ -65,48 +65,124 @@ def shards(tier: str, seed: int):
         for k in KINDS:
             out.append(["simple", b.bid, k])
         out.append(["pairs", b.bid])
+    for b in bm.bases(seed, tier):
+        if "/nonce/" in b.bid:
+            out.append(["forge", b.bid])
+    sizes = [65536, 2**20] if tier == "quick" else [65536, 2**20, 2**21, 3 * 2**20, 2**24]
     for lay in ("env", "trail"):
         for api in ("sync", "async"):
-            out.append(["big", lay, api])
+            for size in sizes:
+                out.append(["big", lay, api, size])
     return out
 
 
-def big_base(seed: int, lay: str) -> bm.Base:
-    """one blob whose ciphertext is exactly 64 KiB (chunk / buffer boundary of any streaming implementation)"""
+def big_base(seed: int, lay: str, size: int = 65536) -> bm.Base:
+    """one blob whose ciphertext is exactly 64 KiB / 1 MiB / a multiple of it / 16 MiB (chunk and buffer boundaries of any
+    streaming or piecewise implementation)"""
     from ref import cms
 
     d = seams.Drbg(("C04big", seed))
     rk = seams.make_root(d, "SHA256")
-    pt = d.bytes(65536)
+    pt = d.bytes(65536) * (size // 65536)
     blob = cms.ref_encrypt(rk, bm.SID, pt, bm.POS, cek=d.bytes(32), gcm_nonce_=d.bytes(12), key_nonce=d.bytes(32), in_envelope=(lay == "env"))
-    return bm.Base(f"big64k/{lay}", rk, blob, pt)
+    return bm.Base(f"big64k/{lay}" if size == 65536 else f"big{size}/{lay}", rk, blob, pt)
 
 
-def big_mutations(blob: bytes):
+def big_mutations(blob: bytes, size: int = 65536):
     n = len(blob)
-    head = n - 65536 - 16
-    byts = sorted(set(list(range(0, min(head + 48, n))) + list(range(head, n, 1021)) + list(range(n - 64, n))))
+    head = n - size - 16
+    if size == 65536:
+        byts = sorted(set(list(range(0, min(head + 48, n))) + list(range(head, n, 1021)) + list(range(n - 64, n))))
+        bits_of = lambda b: (0, 7) if head + 48 <= b < n - 64 else range(8)  # noqa: E731
+        truncs = list(range(0, head + 20)) + [head + 4096, head + 65535, head + 65536, head + 65537, n - 17, n - 16, n - 15, n - 1]
+    else:
+        # sparse: one bit of every header byte, every bit of the first / last 4 ciphertext bytes and of the tag's ends, one bit of 61 spread bytes
+        step = size // 61
+        byts = sorted(set(list(range(0, head + 4)) + list(range(head, n, step)) + [head + 2**16, head + 2**20 - 1, head + 2**20] + list(range(n - 20, n))))
+        byts = [b for b in byts if b < n]
+        bits_of = lambda b: range(8) if head <= b < head + 4 or b >= n - 20 else (b % 8,)  # noqa: E731
+        truncs = [0, 1, head, head + 1, head + 2**16, head + size - 1, head + size, head + size + 1, n - 16, n - 15, n - 1]
     for b in byts:
-        for bit in ((0, 7) if head + 48 <= b < n - 64 else range(8)):
+        for bit in bits_of(b):
             yield ["flip", b * 8 + bit], bm.apply_simple(blob, ["flip", b * 8 + bit])
-    for ln in sorted(set(list(range(0, head + 20)) + [head + 4096, head + 65535, head + 65536, head + 65537, n - 17, n - 16, n - 15, n - 1])):
+    for ln in sorted(set(truncs)):
         if 0 <= ln < n:
             yield ["trunc", ln], blob[:ln]
 
 
+WEAK = ["empty", "zeros64", "zeros32", "ff64", "rkid x4", "key nonce x2", "sd digest x2"]
+FORGE_POS = [(31, 31), (31, 0), (0, 31), (0, 0), (17, 13), (17, 31), (31, 13), (16, 13), (18, 13), (17, 12), (17, 14)]
+STAGES = ["as L2 key", "as L1 key", "as L0 seed", "as root key"]
+
+
+def forge(base: bm.Base, weak: str, stage: str, pos, l0: int) -> bytes:
+    """A multi-site modification of a valid nonce-mode blob that needs NO secret: key position overwritten, wrapped CEK replaced by one
+    wrapped under a KEK derived from publicly known seed material, content replaced by content encrypted under that CEK (IV kept)."""
+    import hashlib
+
+    from cryptography.hazmat.primitives import keywrap
+    from cryptography.hazmat.primitives.ciphers.aead import AESGCM
+
+    from ref import cms, dtyp, gkdi
+
+    b = cms.decode(base.blob)
+    kid = gkdi.unpack_keyid(b.keyid)
+    sd = dtyp.target_sd(dtyp.parse_sid_string(b.sid))
+    h = base.rk.hash_name
+    w = {"empty": b"", "zeros64": b"\0" * 64, "zeros32": b"\0" * 32, "ff64": b"\xff" * 64, "rkid x4": kid.rkid.bytes_le * 4, "key nonce x2": kid.key_info * 2, "sd digest x2": hashlib.sha256(sd).digest() * 2}[weak]
+    l1, l2 = pos
+    if stage == "as L2 key":
+        l2k = w
+    elif stage == "as L1 key":
+        l2k = gkdi.kdf(h, w, gkdi.LABEL, gkdi.ctx(kid.rkid, l0, l1, 31), 64)
+        for m in range(30, l2 - 1, -1):
+            l2k = gkdi.kdf(h, l2k, gkdi.LABEL, gkdi.ctx(kid.rkid, l0, l1, m), 64)
+    else:
+        ch = gkdi.Chain(h, w, kid.rkid, sd, l0)
+        if stage == "as L0 seed":
+            ch.l0_seed = lambda: w  # type: ignore[method-assign]
+        l2k = ch.l2(l1, l2)
+    kid2 = kid._replace(l0=l0, l1=l1, l2=l2)
+    kek = gkdi.kek_nonce(h, l2k, kid2.key_info)
+    cek = b"\xA5" * 32
+    nonce = cms.gcm_nonce(b)
+    enc = AESGCM(cek).encrypt(nonce, b"FORGED-" + base.plaintext[:5], None)
+    return cms.encode(b._replace(keyid=gkdi.pack_keyid(kid2), enc_cek=keywrap.aes_key_wrap(kek, cek), enc_content=enc))
+
+
 def run_shard(shard, tier, seed, acc) -> None:
     worker_init()
+    if shard[0] == "forge":
+        base = bm.base_by_id(seed, shard[1])
+        st, v = unprotect(base, base.blob)
+        if st != "ok" or bytes(v) != base.plaintext:
+            from mc.runner import HarnessError
+
+            raise HarnessError(f"base blob {base.bid} does not decrypt: {st} {v!r}")
+        n = 0
+        for weak in WEAK:
+            for stage in STAGES:
+                for pos in FORGE_POS:
+                    for l0 in (bm.POS[0], bm.POS[0] - 1):
+                        label = ["forge", weak, stage, list(pos), l0]
+                        oc = judge(acc, base, label, forge(base, weak, stage, pos, l0), [], "async" if n % 2 else "sync")
+                        acc.outcome("forge:" + oc.split(":")[0])
+                        n += 1
+        acc.ev(n)
+        acc.nt_counted(n)
+        acc.sample({"blob": base.bid, "forgery": label})
+        return
     if shard[0] == "big":
-        _, lay, api = shard
-        base = big_base(seed, lay)
+        _, lay, api, size = shard
+        base = big_base(seed, lay, size)
         st, v = unprotect(base, base.blob, api)
         if st != "ok" or bytes(v) != base.plaintext:
-            acc.violate("big.base-does-not-decrypt", ["big", lay, api], {"outcome": st, "value": repr(v)[:100]})
+            acc.violate("big.base-does-not-decrypt", ["big", lay, api, size], {"outcome": st, "value": repr(v)[:100]})
             acc.ev()
             return
         fm: t.List[t.Any] = []
         n = 0
-        for label, data in big_mutations(base.blob):
+        for label, data in big_mutations(base.blob, size):
             oc = judge(acc, base, label, data, fm, api)
             n += 1
             acc.outcome("big:" + oc.split(":")[0])
@@ -167,11 +243,14 @@ def replay(case, seed, acc) -> None:
     _, bid, label = case[:3]
     api = case[3] if len(case) > 3 else "sync"
     acc.ev()
-    if bid.startswith("big64k/"):
-        base = big_base(seed, bid.split("/")[1])
+    if bid.startswith("big"):
+        base = big_base(seed, bid.split("/")[1], 65536 if bid.startswith("big64k/") else int(bid.split("/")[0][3:]))
         judge(acc, base, label, bm.apply_simple(base.blob, label), [], api)
         return
     base = bm.base_by_id(seed, bid)
+    if label[0] == "forge":
+        judge(acc, base, label, forge(base, label[1], label[2], tuple(label[3]), label[4]), [], api)
+        return
     judge(acc, base, label, bm.apply_simple(base.blob, label), bm.field_map(base.blob), api)
 
 
